@@ -3,6 +3,8 @@ package main
 import (
 	"fmt"
 	"go/token"
+	"go/types"
+	"sort"
 	"strings"
 
 	"golang.org/x/tools/go/ssa"
@@ -12,7 +14,7 @@ func init() {
 	register(&propertyDef{
 		id:    "C15",
 		title: "optional, one-of and or-disabled inputs mean what their tags say",
-		rules: []ruleFunc{c15R1, c15R2, c15R3, c15Shared, c15R7, c15R8},
+		rules: []ruleFunc{c15R1, c15R2, c15R3, c15Shared, c15R7, c15R8, c15R9},
 		decided: "the tag table of the YAML conversion: each tag dispatches to its builder, !soft-optional -> WaitForCompletion=false, !wait-optional -> true, !ordisabled -> one-of with discriminator `result`, option `enabled` = the given expression, option `disabled` = <step path>.disabled.output, !oneof requires `discriminator` and `one_of` (R1); " +
 			"run-time selection: an optional value is absent exactly when its group node is not among the parent's resolved dependencies and is otherwise the evaluation of its expression, absent values are dropped from maps; a one-of takes the option named by a resolved dependency of type Or, with the discriminator set to that option id, and the writer and reader of option node ids use the same separator (R2); " +
 			"group node ids are derived from the consumer node id and the path of the tagged field, which grows at every nesting level (R3); tags map to their dependency kinds (C10.R2) and all walkers know the three kinds (C02.R1); a step accounts for every And-successor of a finished stage, so `disabled` is always finished or impossible once enabling finished (R6 = C12.R9). The stage-failure handler marks the stage node and all output nodes of the failed stage (R7); the discriminator is the last write into a one-of value (R2).",
@@ -59,6 +61,14 @@ func c15R1(c *Ctx) {
 			})
 			key := "dispatch:" + name
 			if call == nil {
+				// table-driven dispatch: a package-level map from tag to handler, looked up with data.Tag()
+				if got, ok := c.tagTableDispatch(dispatch, name); ok {
+					want := append([]string{}, tags...)
+					sort.Strings(want)
+					c.verdict(strings.Join(got, ",") == strings.Join(want, ","), rule, key, c.pos(dispatch.Pos()), name+" is the handler of exactly "+strings.Join(tags, " / ")+" in the tag table that yamlBuildExpressions consults",
+						fmt.Sprintf("the tag table dispatches %v to %s, expected %v", got, name, want))
+					continue
+				}
 				c.bad(rule, key, c.pos(dispatch.Pos()), "yamlBuildExpressions no longer calls "+name)
 				continue
 			}
@@ -112,6 +122,17 @@ func c15R1(c *Ctx) {
 				d = fmt.Sprintf("tags map to WaitForCompletion %v (expected !soft-optional=false, !wait-optional=true)", got)
 			}
 		})
+		if !okc {
+			// table form: WaitForCompletion is `table[data.Tag()]` of a package-level map[string]bool with constant entries,
+			// and a tag that is not in the table is an error
+			if got, ok := c.optionalFlagTable(fn, wf); ok {
+				if got["!soft-optional"] == "false" && got["!wait-optional"] == "true" && len(got) == 2 {
+					okc = true
+				} else {
+					d = fmt.Sprintf("the tag table maps to WaitForCompletion %v (expected exactly !soft-optional=false, !wait-optional=true)", got)
+				}
+			}
+		}
 		c.verdict(okc, rule, "optional-flags", c.pos(fn.Pos()), "!soft-optional -> false, !wait-optional -> true", d)
 	}
 	// ordisabled
@@ -449,6 +470,45 @@ func c15R3(c *Ctx) {
 			}
 		})
 		c.verdict(n >= 2 && okAll, rule, "path-extended", c.pos(fn.Pos()), fmt.Sprintf("all %d recursive walks extend the path by the key/index", n), "a recursive dependency walk does not extend the field path: nested tagged fields would collide on one group node id")
+		// the walks started for the input fields of one stage: the same consumer node is walked once per field, so the
+		// starting path has to tell the fields apart (it holds the field's name) — with an empty path two fields that
+		// both carry a tagged value directly get the same group node id and the workflow is refused
+		nf := 0
+		for _, g := range c.parsePrepareFns() {
+			if g == fn || pkgPathOf(g) != pkgWorkflow {
+				continue
+			}
+			for _, li := range loopsOf(g) {
+				// a loop over the `InputFields` of a stage
+				var rng ssa.Value = li.Range
+				if rng == nil && li.Next != nil {
+					if r, ok := li.Next.Iter.(*ssa.Range); ok {
+						rng = r.X
+					}
+				}
+				if rng == nil || !derivesFrom(rng, func(v ssa.Value) bool { f := loadedField(v); return f != nil && fieldName(f) == "InputFields" }) {
+					continue
+				}
+				for b := range li.Blocks {
+					for _, in := range b.Instrs {
+						call, ok := in.(*ssa.Call)
+						if !ok || call.Common().StaticCallee() != fn {
+							continue
+						}
+						nf++
+						p := argOfType(callArgs(call.Common()), isStringSlice)
+						// the path mentions the loop's field name
+						named := p != nil && li.Next != nil && derivesFrom(p, func(v ssa.Value) bool {
+							ex, ok := v.(*ssa.Extract)
+							return ok && ex.Tuple == ssa.Value(li.Next) && ex.Index == 1
+						})
+						c.verdict(named, rule, fmt.Sprintf("field-path@%s#%d", c.fnName(g), nf), c.instrPos(call), "the walk of each stage input field starts with a path that holds the field's name",
+							"the dependency walks of the input fields of one stage all start with the same path: two fields that carry a tagged value directly (`wait_for: !wait-optional …` and `closure_wait_timeout: !soft-optional …`) get the same group node id, and a key named like an output of the stage collides with that output's node — Prepare refuses a legal placement with `node with ID … already exists`")
+					}
+				}
+			}
+		}
+		c.minCount(rule, "dependency walks per stage input field", nf, 1)
 	}
 }
 
@@ -673,7 +733,40 @@ func (c *Ctx) completionSweep() (bool, string) {
 		if pkgPathOf(impl) != pkgWorkflow {
 			continue
 		}
+		// the functions the completion handler runs: what it owns, and what it calls statically in its package (depth 3);
+		// for a function with other callers the call made on the completion path is remembered
+		type reach struct {
+			fn   *ssa.Function
+			site *ssa.Call // nil when owned
+		}
+		var todo []reach
+		seenFn := map[*ssa.Function]bool{}
 		for _, g := range c.logicalBody(impl) {
+			todo = append(todo, reach{g, nil})
+			seenFn[g] = true
+		}
+		for i, depth := 0, 0; i < len(todo) && depth < 200; i, depth = i+1, depth+1 {
+			eachInstr(todo[i].fn, func(r instrRef) {
+				call, ok := r.I.(*ssa.Call)
+				if !ok {
+					return
+				}
+				f := call.Common().StaticCallee()
+				if f == nil || seenFn[f] || pkgPathOf(f) != pkgWorkflow || len(f.Blocks) == 0 {
+					return
+				}
+				seenFn[f] = true
+				todo = append(todo, reach{f, call})
+				for _, h := range c.logicalBody(f) {
+					if !seenFn[h] {
+						seenFn[h] = true
+						todo = append(todo, reach{h, call})
+					}
+				}
+			})
+		}
+		for _, rc := range todo {
+			g := rc.fn
 			for _, li := range loopsOf(g) {
 				// ranges over a `Stages` field
 				if li.Range == nil && li.Next == nil {
@@ -724,6 +817,46 @@ func (c *Ctx) completionSweep() (bool, string) {
 				if resolve == nil || marks == nil {
 					continue
 				}
+				// every stage is swept: no iteration skips the resolution, except when the stage node cannot be found
+				if skip := c.iterationSkips(li, func(in ssa.Instruction) bool {
+					if in == resolve {
+						return true
+					}
+					ifi, ok := in.(*ssa.If)
+					return ok && c.isAllowedSkipTest(ifi, nil, li)
+				}); skip != nil {
+					why = "the completion sweep in " + c.fnName(g) + " skips some stages (" + strings.Join(skip, " -> ") + "): the stages it skips stay undecided"
+					continue
+				}
+				// a sweep that a shared function runs only for completions: guarded by a boolean parameter that the
+				// completion path passes as the constant true
+				if rc.site != nil {
+					top := liftTo(resolve, rc.site.Common().StaticCallee())
+					okGuard := true
+					if top != nil {
+						callee := rc.site.Common().StaticCallee()
+						guarded := false
+						for pi, prm := range callee.Params {
+							if bt, ok := prm.Type().Underlying().(*types.Basic); !ok || bt.Kind() != types.Bool {
+								continue
+							}
+							prm := prm
+							if guardedByLocal(top, true, func(cond ssa.Value) bool { return cond == ssa.Value(prm) }, 0) != nil {
+								guarded = true
+								if pi >= len(rc.site.Common().Args) {
+									okGuard = false
+								} else if b, isB := constBool(rc.site.Common().Args[pi]); !isB || !b {
+									okGuard = false
+								}
+							}
+						}
+						_ = guarded
+					}
+					if !okGuard {
+						why = "the sweep in " + c.fnName(g) + " is guarded by a parameter that the completion handler does not pass as true"
+						continue
+					}
+				}
 				must, _ := la.Held(resolve)
 				if L == nil || !must[L] {
 					why = "the completion sweep in " + c.fnName(g) + " does not hold the run lock"
@@ -744,4 +877,215 @@ func (c *Ctx) completionSweep() (bool, string) {
 		}
 	}
 	return found, why
+}
+
+// tagTableDispatch: dispatch looks the handler up with `table[data.Tag()]` in a package-level map filled during
+// initialisation with constant keys, and calls it on the found edge. Returns the sorted tags whose handler is the named
+// builder itself or an adapter whose only repo call is that builder.
+func (c *Ctx) tagTableDispatch(dispatch *ssa.Function, builder string) ([]string, bool) {
+	var table *ssa.Global
+	eachInstr(dispatch, func(r instrRef) {
+		lk, ok := r.I.(*ssa.Lookup)
+		if !ok || !lk.CommaOk {
+			return
+		}
+		u, ok := lk.X.(*ssa.UnOp)
+		if !ok || u.Op != token.MUL {
+			return
+		}
+		g, ok := u.X.(*ssa.Global)
+		if !ok {
+			return
+		}
+		// the key is the node's tag
+		if call, ok := lk.Index.(*ssa.Call); !ok || !call.Common().IsInvoke() || call.Common().Method.Name() != "Tag" {
+			return
+		}
+		// the looked-up function is called on the found edge
+		called := false
+		if lk.Referrers() != nil {
+			for _, ref := range *lk.Referrers() {
+				ex, ok := ref.(*ssa.Extract)
+				if !ok || ex.Index != 0 || ex.Referrers() == nil {
+					continue
+				}
+				for _, r2 := range *ex.Referrers() {
+					if call, ok := r2.(*ssa.Call); ok && call.Common().Value == ssa.Value(ex) {
+						if guardedBy(call, true, func(cond ssa.Value) bool {
+							e2, ok := cond.(*ssa.Extract)
+							return ok && e2.Tuple == ssa.Value(lk) && e2.Index == 1
+						}) != nil {
+							called = true
+						}
+					}
+				}
+			}
+		}
+		if called {
+			table = g
+		}
+	})
+	if table == nil {
+		return nil, false
+	}
+	// the table's contents: constant-key updates of the map stored into the global during initialisation
+	reaches := func(h *ssa.Function) bool {
+		if h == nil {
+			return false
+		}
+		if funcSimpleName(h) == builder {
+			return true
+		}
+		n, hit := 0, false
+		eachInstr(h, func(r instrRef) {
+			if call, ok := r.I.(*ssa.Call); ok {
+				if f := call.Common().StaticCallee(); f != nil && isRepoFn(f) {
+					n++
+					if funcSimpleName(f) == builder {
+						hit = true
+					}
+				}
+			}
+		})
+		return hit && n == 1
+	}
+	var fnOf func(v ssa.Value, d int) *ssa.Function
+	fnOf = func(v ssa.Value, d int) *ssa.Function {
+		if d > 6 {
+			return nil
+		}
+		switch x := v.(type) {
+		case *ssa.Function:
+			return x
+		case *ssa.MakeClosure:
+			f, _ := x.Fn.(*ssa.Function)
+			return f
+		case *ssa.ChangeType:
+			return fnOf(x.X, d+1)
+		case *ssa.UnOp:
+			if al, ok := x.X.(*ssa.Alloc); ok && x.Op == token.MUL {
+				if sv := soleStore(al); sv != nil {
+					return fnOf(sv, d+1)
+				}
+			}
+		}
+		return nil
+	}
+	var tags []string
+	for _, fn := range c.RepoFns {
+		if fn.Pkg != dispatch.Pkg || fn.Parent() != nil || !(fn.Name() == "init" || strings.HasPrefix(fn.Name(), "init#")) {
+			continue
+		}
+		eachInstr(fn, func(r instrRef) {
+			mu, ok := r.I.(*ssa.MapUpdate)
+			if !ok {
+				return
+			}
+			// the updated map is the one stored into the table (a fresh map stored there, or a load of it)
+			isTable := false
+			if u, ok := mu.Map.(*ssa.UnOp); ok && u.X == ssa.Value(table) {
+				isTable = true
+			}
+			if mm, ok := mu.Map.(*ssa.MakeMap); ok && mm.Referrers() != nil {
+				for _, ref := range *mm.Referrers() {
+					if st, ok := ref.(*ssa.Store); ok && st.Addr == ssa.Value(table) {
+						isTable = true
+					}
+				}
+			}
+			if !isTable {
+				return
+			}
+			k, isC := constString(mu.Key)
+			if !isC {
+				tags = append(tags, "<non-constant key>")
+				return
+			}
+			if reaches(fnOf(mu.Value, 0)) {
+				tags = append(tags, k)
+			}
+		})
+	}
+	sort.Strings(tags)
+	return tags, true
+}
+
+// optionalFlagTable: the value stored into WaitForCompletion is the comma-ok lookup of data.Tag() in a package-level
+// map[string]bool whose entries are constants, and the not-found edge returns an error.
+func (c *Ctx) optionalFlagTable(fn *ssa.Function, wf *types.Var) (map[string]string, bool) {
+	var table *ssa.Global
+	eachInstr(fn, func(r instrRef) {
+		st, ok := r.I.(*ssa.Store)
+		if !ok {
+			return
+		}
+		fa, ok := st.Addr.(*ssa.FieldAddr)
+		if !ok || fieldAddrVar(fa) != wf {
+			return
+		}
+		ex, ok := st.Val.(*ssa.Extract)
+		if !ok || ex.Index != 0 {
+			return
+		}
+		lk, ok := ex.Tuple.(*ssa.Lookup)
+		if !ok || !lk.CommaOk {
+			return
+		}
+		if call, ok := lk.Index.(*ssa.Call); !ok || !call.Common().IsInvoke() || call.Common().Method.Name() != "Tag" {
+			return
+		}
+		u, ok := lk.X.(*ssa.UnOp)
+		if !ok {
+			return
+		}
+		g, ok := u.X.(*ssa.Global)
+		if !ok {
+			return
+		}
+		// used only on the found edge
+		if guardedBy(st, true, func(cond ssa.Value) bool {
+			e2, ok := cond.(*ssa.Extract)
+			return ok && e2.Tuple == ssa.Value(lk) && e2.Index == 1
+		}) == nil {
+			return
+		}
+		table = g
+	})
+	if table == nil {
+		return nil, false
+	}
+	got := map[string]string{}
+	for _, f := range c.RepoFns {
+		if f.Pkg != fn.Pkg || f.Parent() != nil || !(f.Name() == "init" || strings.HasPrefix(f.Name(), "init#")) {
+			continue
+		}
+		eachInstr(f, func(r instrRef) {
+			mu, ok := r.I.(*ssa.MapUpdate)
+			if !ok {
+				return
+			}
+			isTable := false
+			if u, ok := mu.Map.(*ssa.UnOp); ok && u.X == ssa.Value(table) {
+				isTable = true
+			}
+			if mm, ok := mu.Map.(*ssa.MakeMap); ok && mm.Referrers() != nil {
+				for _, ref := range *mm.Referrers() {
+					if st, ok := ref.(*ssa.Store); ok && st.Addr == ssa.Value(table) {
+						isTable = true
+					}
+				}
+			}
+			if !isTable {
+				return
+			}
+			k, isC := constString(mu.Key)
+			b, isB := constBool(mu.Value)
+			if !isC || !isB {
+				got["<non-constant entry>"] = "?"
+				return
+			}
+			got[k] = fmt.Sprint(b)
+		})
+	}
+	return got, true
 }
